@@ -37,7 +37,9 @@ ASBUILT = {
            "iterator consumed through `buffiter` with chunks larger than 1 000; no real temp file. Restrictions found necessary during calibration are listed in §7 "
            "(addresses in default reprs, identity hashes, frozenset iteration order, names the active policy denies, `__doc__` writes "
            "which netrefs keep local, `__class__` of classes the requester cannot import, a `bytes` left operand, names of the exposed twin "
-           "that the policy renames). Two divergences are known findings, two were "
+           "that the policy renames). Constructive fragments on the harness objects: a state-dependent result (hash / len / str / bool / "
+           "repr) asked twice on one proxy with a state change in between, and orderings that only the other operand's reflected "
+           "method can answer. Two divergences are known findings, two were "
            "repaired (§3).",
     "C03": "Built as designed including the two-hop (A–B–C) variant (a value travels A→B→C and a mutation made on C is observed on A "
            "exactly when some hop passed it by reference). Every mutation step uses a fresh value, because repeating an identical mutation "
@@ -50,20 +52,23 @@ ASBUILT = {
            "outside the fuzzer before it counts. A further part changes the interpreter's int->text digit limit at run time "
            "(0 = unlimited, 640 … 9000) and re-asks the declared-set question for integers just below / at / above / twice the "
            "limit in force: 'can render as text' is a statement about the current setting, not the one at import time.",
-    "C05": "Built as designed (`props/c05.py`); the kernel-socketpair part runs in both tiers (few cases in quick) with a watchdog that "
+    "C05": "Built as designed (`props/c05.py`), plus a few packets around and beyond one mebibyte (2^20-1 … 2^22+1, coarse fragments); the kernel-socketpair part runs in both tiers (few cases in quick) with a watchdog that "
            "turns a reader waiting for bytes nobody sent into a reported failure instead of a hang.",
     "C06": "Built as designed; the grid turned out cheap enough (≈ 220 000 evaluations in ≈ 6 s) to be enumerated **completely in the "
            "quick tier as well**: 2⁷ switches × 4 prefixes × 17 name classes × 4 shapes × 7 operations (get, set, delete, call, and the "
            "indirect routes cmp / oldslicing / ctxexit). Hooks (every subset), `restricted()` views and Service instances are enumerated on "
            "a sample of configurations. Isolation histories use `VoidService` and `SlaveService` (not `ClassicService`, whose `on_connect` "
-           "needs a peer).",
+           "needs a peer). The end-to-end part also runs through a *forwarded* proxy (three parties: the owner lets the middle party do "
+           "anything, the middle party pushes its proxy on over a connection with the generated configuration, which alone must decide).",
     "C07": "Built without the byte-level atheris campaign (structure-aware generation only). A second connection that allows custom "
            "exceptions is part of the grammar (the peer may then name any importable class; nothing may be imported or run for it beyond "
            "what C09 allows). Added beyond the design: a *policy-denial* "
            "oracle (every by-name request the default policy denies — decided by C06's reference function on the real target object — must "
            "be answered with an exception) and a constructive attack generator aiming every by-name route (cmp, callattr, getattr, setattr, "
            "delattr, oldslicing, pickle, ctxexit) at non-exposed names on identifiers that are really held; without it the CVE-style "
-           "mutation (`_handle_cmp` without the policy check) was hit only ≈ 4 times per quick run.",
+           "mutation (`_handle_cmp` without the policy check) was hit only ≈ 4 times per quick run. By-name requests are also sent with "
+           "the *name* passed as a reference to an object of the peer's that claims a text class: they must be refused without the "
+           "victim asking that object anything (only class-description and release traffic may go to the peer meanwhile).",
     "C08": "Built as designed plus a third part: a real client against a peer that duplicates responses, answers with another value or "
            "exception for an already answered sequence number, or invents sequence numbers (the response must go to its own request and "
            "to no other). Handler outcomes include `SystemExit`/`GeneratorExit`, an exception whose "
@@ -78,14 +83,18 @@ ASBUILT = {
            "time a reference arrives; a pump task then delivers packets FIFO while the holder waits, which makes the holder dispatch "
            "other requests *nested* inside the unboxing of the first (two proxies of one object being built at once).",
     "C11": "Built as designed plus a small real-socket part (a thread blocked in `serve()` on a loopback socket while another closes "
-           "the connection). Specifics: faults are *incoming stream ends at byte k*, *outgoing write fails at byte k* and "
+           "the connection) and `before_closed` hooks that succeed, fail locally or fail in a remote call (close() may then raise what "
+           "the hook raised, but the side must end up closed, finalised once, with empty tables). Specifics: faults are *incoming stream ends at byte k*, *outgoing write fails at byte k* and "
            "*poll fails at index i* (an I/O error and an end-of-stream are indistinguishable at the Stream contract; the difference is "
            "C05's); positions are every operation boundary and {1, middle, last} inside every read/write of a recorded clean run. The quick "
            "tier runs a fixed 1-in-5 stride plus every second write fault, the thorough tier all plans (≈ 4 100). `serve()`/`wait()` are "
            "deliberately not preemption points in the close-order part (that reproduces C14's known windows as hangs).",
     "C12": "Built as designed. The quick tier includes a bound-3 DFS of the [1,2]-message shape (frontier computed in `plan()`, "
            "sharded). The thorough tier's unbounded DFS of 2 threads × 1 message is complete: 1 785 660 line-level schedules.",
-    "C13": "Built as designed (random preemption lists; DFS with bound 1 quick / 2 thorough on the smallest shape).",
+    "C13": "Built as designed (random preemption lists; DFS with bound 1 quick / 2 thorough on the smallest shape). A client thread may "
+           "issue its request asynchronously and register a completion callback while the reply may already be on its way "
+           "(`add_callback` is a preemption point): the callback must run exactly once with that request's value - this found the "
+           "lost-callback race repaired in cf2c646.",
     "C14": "Built with **two** known windows instead of one (F4 and F4b, §3) and 1–2 callers. Classification is by the state in which the "
            "caller starts its last blocking wait (`blocked-between-receive-and-dispatch`, `blocked-after-reply-dispatched`); every schedule "
            "is also run with both windows closed by construction (receiver atomic from `recv()` to the end of dispatch; waiter atomic from "
@@ -93,7 +102,9 @@ ASBUILT = {
            "stall is a VIOLATION regardless of classification. With a single caller, the caller may also be preempted between its "
            "failed try-acquire and its `wait()` while it owns the condition (a receiver that then *skips* the notification is caught; "
            "with two callers that preemption would reopen F4b and is therefore not taken in closed mode). `SimCondition` implements "
-           "`wait_for`, `acquire` and `release` too, so changes that use those run instead of crashing the simulation.",
+           "`wait_for`, `acquire` and `release` too, so changes that use those run instead of crashing the simulation. Serving threads "
+           "come in three kinds (BgServingThread, a `serve()` loop, a `poll()` loop that never queues behind the receive lock), and a "
+           "caller's completion callback may raise in whichever thread dispatches the reply.",
     "C15": "Built as designed for a single requester thread, plus a part in which another thread holds the receive lock while the "
            "timeout expires (the waiter must still give up at its deadline and the late reply must still land). Ties, negative timeouts and cases with a time-consuming unrelated handler are held to the universal clauses only "
            "(the evidence counts exact vs. universal-only comparisons).",
@@ -108,13 +119,19 @@ ASBUILT = {
            "`close()` run to completion between the listener handing out a late client's connection and the accept loop seeing it; "
            "the late client must get end-of-stream and the closed server must hold nothing), and *coalesced child exits* for the "
            "forking server (the helper process blocks SIGCHLD, n clients leave, all n children are zombies, the signal is released "
-           "once in the main thread: no exited child may remain in the process table).",
+           "once in the main thread: no exited child may remain in the process table). Histories run without authenticator, with one, "
+           "and with one that returns a *new socket object* for the descriptor (what TLS wrapping does - this found that `close()` did "
+           "not terminate such clients, repaired in b1fd72f); the pool server's poll object is observed through a wrapper, so "
+           "descriptors of departed clients that stay registered count as leftovers.",
     "C18": "Built in-process over scripted sockets as designed, plus a real-loopback part (UDP and TCP registry servers on 127.0.0.1 "
-           "with real clients) in both tiers with few cases.",
-    "C19": "Built as designed (`props/c19.py`, `props/c19conv.py`).",
+           "with real clients) in both tiers with few cases; replies whose transmission fails with an OS error (message too long, "
+           "network unreachable, …) are part of the histories.",
+    "C19": "Built as designed (`props/c19.py`, `props/c19conv.py`). Text with lone surrogates is part of the value space since the "
+           "reference codec encodes it the way the repaired brine does (generalised UTF-8, frozen vector `08 0c ed b3 a9`).",
     "C20": "Built as designed; names include leading/trailing blanks and tabs. The destination is compared at the moment the call "
            "returns (before anything else runs) and again at the end, and optionally the source files are rewritten (other bytes, same "
-           "or half the size) and transferred a second time over the existing destination.",
+           "or half the size) and transferred a second time over the existing destination. File contents are random, all NUL, or carry a "
+           "long leading / trailing run of NUL bytes; optionally every top-level file X has a sibling X.part / X.tmp / X~ / X.bak / X.swp.",
 }
 for pid, text in ASBUILT.items():
     marker = "*As built (%s).*" % pid
@@ -197,6 +214,24 @@ was corrected in the machinery, never by loosening a right oracle):
   sequences are compared per (name, address); what a hostile host registers for itself is its own business.
 * **C19 conversations**: `proxy.name(...)` is GETATTR + CALL (not CALLATTR) because `__getattribute__` intercepts every name → the
   reference server models bound methods as references.
+* **Generators measured, not assumed**: `st.text` over a mixed alphabet produced a lone surrogate in ≈ 0.1 % of texts, so the
+  class `str:lone-surrogate` was all but empty and three seeded changes in the text codec went unnoticed → lone surrogates are
+  now built by construction (≈ 13 % of encode cases). C06's first forwarded-proxy part judged only 59 of 300 cases (the victim
+  was not obtainable under most generated configurations) and none on a tree where the lookup failed → the proxy is now
+  *pushed* to the requester and the evidence counts judged decisions. The first version also let the owner apply its own twin
+  mapping, which the oracle took for the middle party's decision (false alarm) → the owner resolves names literally.
+* **C10 inspect variant**: the pump task kept virtual time advancing after the driver had finished (step limit reported as a
+  deadlock) → the driver stops the pump. **C14**: a raising callback registered after the reply had been dispatched raises at
+  `add_callback`, and a caller that serves other callers' replies may see several such errors → both handled in the harness.
+* **C17**: the late client of the close-during-accept scenario could lose the race against connections still queued in the
+  listener (flash clients) or against an accept() already in progress → a throw-away round trip drains the queue, the wrapper
+  reports when the accept loop is inside it, and a refused late connect is counted as inconclusive; a unix listener has no
+  accept timeout → TCP only. Releasing SIGCHLD in the helper's control thread never interrupted the main thread's `accept()`
+  → the mask is lifted in the main thread (poked with SIGUSR1). With a wrapping authenticator a connected client has two entries
+  in `server.clients` (one detached) → the audit counts live socket objects.
+* **Seeded-change runs**: two matrices running at once cleared each other's `out/<ID>/` and produced spurious "missed" entries →
+  the final matrix ran alone. A seeded change that used `Condition.wait_for` was "detected" only because the simulated
+  condition lacked that method → implemented, and the change is now caught for the right reason.
 * **Runner**: Hypothesis has no shrink budget → after a failure is known, at most 400 further oracle evaluations are spent on
   shrinking (then the best failing case so far is replayed and reported); replay files of earlier runs are deleted at the start
   of a run.
@@ -224,33 +259,52 @@ for n in sorted(os.listdir(seeded)):
     needs = m.get("needs_to_manifest", "")[:160].replace("|", "/").replace("\n", " ")
     st = "superseded by a repair" if str(m.get("status", "")).startswith("superseded") else m.get("apply_on_head", "")
     rows.append("| %s | %s | %s | %s |" % (n, st, needs, det_s.replace("|", "/")))
+REASONS = {
+    "C09-m5": "needs two threads serving two failing requests on ONE connection at the same time (the shared traceback slot); C09's "
+              "generated cases are single-threaded on the serving side and C13's concurrent clients never fail remotely",
+}
+missed_names = []
+for n in sorted(os.listdir(seeded)):
+    mp = os.path.join(seeded, n, "meta.json")
+    if not os.path.exists(mp):
+        continue
+    m = json.load(open(mp))
+    det = m.get("detected_by")
+    if str(m.get("status", "")).startswith("superseded") or not isinstance(det, dict):
+        continue
+    if not any(str(v).startswith("DETECTED") for v in det.values()):
+        missed_names.append(n)
+NOT_CAUGHT = ("Not caught by any check (stated limits of the machinery, not equivalences): " +
+              ("; ".join("`%s` - %s" % (n, REASONS.get(n, "see its notes.md")) for n in missed_names) if missed_names else "none") +
+              ". Two round-1 changes (`C11-m1`, `C17-m2`) no longer break their property after a repair made the tree tolerant of them.")
 s += """## 9. Seeded changes (independent sub-agents) and which checks catch them
 
-Changes were written by fresh sub-agents that saw only one property's text and a scratch worktree: round 1 two per property
-(`m1`, `m2`), round 2 two more (`m3`, `m4`) by new sub-agents that were additionally given a one-line list of the *ideas* already
-used for that property (no code, nothing from /verif) so that they would look elsewhere. Each was confirmed by me (demo fails with the patch, passes without, the repository's 57 tests still pass with it) before being kept
-under `seeded/<ID>-m<i>/`; `tools/seeded_run.py` re-validates all of them against the current /repo HEAD (four round-1 patches were
-rebased by hand after the repairs changed their context; two no longer break the property because a repair made the tree tolerant
-of them) and runs the property's own check plus related ones against a scratch worktree (`VERIF_REPO`), never against /repo.
+120 changes were written by fresh sub-agents that saw only one property's text and a scratch worktree: round 1 two per property
+(`m1`, `m2`), rounds 2 and 3 two more each (`m3`/`m4`, `m5`/`m6`) by new sub-agents that were additionally given a one-line list of
+the *ideas* already used for that property (no code, nothing from /verif) so that they would look elsewhere. Each was confirmed by me (demo fails with the patch, passes without, the repository's 57 tests still pass with it) before being kept
+under `seeded/<ID>-m<i>/`; `tools/seeded_run.py` re-validates all of them against the current /repo HEAD (eleven patches were
+rebased by hand after repairs changed their context - originals kept as `patch.orig.diff`; two no longer break the property
+because a repair made the tree tolerant of them) and runs the property's own check plus related ones against a scratch worktree (`VERIF_REPO`), never against /repo.
 
 | change | applies to HEAD | needs, in order to manifest | quick-tier result |
 |---|---|---|---|
 """ + "\n".join(rows) + """
 
 A change counts as caught when *some* registered check reports it in its quick tier (a change written against one property
-often breaks a neighbouring one first; the second column of results shows which). Checks strengthened because a seeded change
-was missed at first: C01 (named tuples, class arguments), C02 (non-reflexive `__eq__`, self comparison, long `buffiter` chunks),
-C03 (two-hop, `deliver`), C05 (short writes of the OS shim, kernel socketpair), C07 (second connection with custom exceptions,
-identifier harvesting), C08 (huge-integer and unprintable exceptions), C11 (real-socket close, same-side overlapping close),
-C12 (bound-3 DFS in quick), C13 (DFS), C15 (held receive lock), C18 (real loopback, notification order).
+often breaks a neighbouring one first; the result column shows which). Checks strengthened because a seeded change was missed
+at first (each time by widening the generator or adding an oracle the property's text supports, never by special-casing the
+change): C01 named tuples / class arguments; C02 non-reflexive `__eq__`, self comparison, long `buffiter` chunks, state-dependent
+results asked twice, reflected ordering; C03 two-hop, `deliver`; C04 run-time integer limit, lone surrogates; C05 short writes,
+kernel socketpair, packets beyond a mebibyte; C06 forwarded proxies; C07 second connection with custom exceptions, identifier
+harvesting, names passed by reference; C08 huge-integer and unprintable exceptions; C10 inspect variant with nested dispatch;
+C11 real-socket close, same-side overlapping close, `before_closed` hooks; C12 bound-3 DFS in quick; C13 DFS, completion
+callbacks; C14 single-caller preemption before `wait()`, poll() receivers, raising callbacks; C15 held receive lock; C16 slow
+hooks, simultaneous clients, per-client configuration; C17 close during accept, coalesced child exits, wrapping authenticator,
+poll registrations; C18 real loopback, notification order, failing reply transmission; C19 lone surrogates; C20 snapshots at
+return, second transfer, NUL contents, sibling temp names. Three of these extensions exposed genuine defects of the pinned tree
+(pool descriptor re-use, `close()` with a wrapping authenticator, lost completion callback), all repaired (§3).
 
-Not caught, and why (all four need an interleaving inside a real server or kernel that a real-socket harness cannot force, and
-the simulation kernel does not model processes or signals): `C16-m2` (two authenticating clients interleaved inside
-`Service._connect`), `C17-m3` (two children exiting close enough together for their SIGCHLDs to coalesce, leaving a zombie),
-`C17-m4` (`close()` interleaved with `accept()` returning), and `C10-m4` (a release notice racing with a *second* outstanding
-INSPECT for the same object: the C10 race part lends builtin lists, which never need INSPECT). These are stated limits of the
-machinery, not equivalences.
-
+""" + NOT_CAUGHT + """
 ## 10. Sensitivity runs with deliberate breakages
 
 `tools/mutations.py` lists ≈ 190 single-site breakages (all compile; most pass the repository's tests); `tools/sens.py` applies
